@@ -4,4 +4,4 @@ Extraction "c04_model.ml" full_matrix landmark_matrix landmark_matrix_fixed row_
   pick_first_min pick_last_min table_w
   sp_row sp_matrix sp_landmarks check_row check_matrix check_landmarks
   iso_current_exec iso_old_exec mds_ref_exec check_mds
-  full_matrix_fibc landmark_matrix_fibc full_trace_fibc landmark_trace_fibc.
+  full_matrix_fibc landmark_matrix_fibc full_trace_fibc landmark_trace_fibc full_events_fibc.
